@@ -135,6 +135,7 @@ class C11(Machine):
                 op['vseed'] = rng.randint(0, 10**6)
             if faulty and nfaults < 2 and rng.random() < 0.6:
                 self._gen_fault(rng, op, config, ntasks)
+                op['giveup'] = rng.random() < 0.4
                 nfaults += 1
             ops.append(op)
         return {'config': config, 'ops': ops}
@@ -469,6 +470,20 @@ class C11(Machine):
             if cfg['file_dir']:
                 st['tainted'] = True
                 ctx.stats.probe('tainted_by_failed_attempt')
+            if op.get('giveup'):
+                # The caller gives the operation up instead of repeating it,
+                # resets the object with the documented clean('computed')
+                # and carries on: nothing of the failed attempt may survive
+                # (e.g. a tolerance or flag switched for the operation).
+                sim.clean('computed')
+                ref.clean('computed')
+                st['direct'].clear()
+                st['tainted'] = False
+                st['last_compute_snap'] = None
+                st.setdefault('skip', set()).add('jvecdata')
+                ctx.stats.probe('gave_up_after_fault')
+                ctx.event(kind + '/giveup')
+                return
             # (b) bounded liveness: once faults stop, the operation succeeds
             # at the first retry; if stale files are in the way (file-based
             # mode) after the documented reset, clean('computed').
